@@ -1650,7 +1650,7 @@ impl<I: Iterator<Item = u16>> UnaryControlWordIterator<I, u8> {
 
 impl<I: Iterator<Item = u16>> UnaryControlWordIterator<I, u16> {
     fn append_next(&mut self, buf: &mut Vec<u8>) -> Option<ControlWordDesc> {
-        let next = self.repdef.next().unwrap() & self.level_mask;
+        let next = self.repdef.next()? & self.level_mask;
         let control_word = next.to_le_bytes();
         buf.push(control_word[0]);
         buf.push(control_word[1]);
